@@ -16,7 +16,7 @@ int __wrap_gettimeofday (struct timeval *tv, void *tz) { (void) tz ; if (tv) { t
 enum { V_SINGLE, V_ONES, V_SMALLODD, V_BLOCK, V_BIG, V_MIXED, V_UPDATE, V_AUTO, V_CHILD, V_CLOCK, V_N } ;
 static const char *vname [] = { "single", "1-frame-calls", "small-odd", "B-1/B/B+1", ">staging", "mixed", "update-header-now", "auto-header", "child-process", "other-clock" } ;
 
-typedef struct { int format, ch, rate, t, meta ; long N ; void *data ; } JOB ;
+typedef struct { int format, ch, rate, t, meta, opt ; long N ; void *data ; } JOB ;	/* opt: a header-only writer option, the same in every variant of the job */
 
 static int produce (const JOB *j, int variant, MEMF *m, sf_count_t *doff, sf_count_t *dlen)
 {	SNDFILE *s ; long items = j->N * j->ch, done = 0 ; int ts = vh_tsize [j->t], B = vh_block (j->format, j->ch, j->rate), step = 0 ; SF_VERIF_STATE st ;
@@ -25,6 +25,11 @@ static int produce (const JOB *j, int variant, MEMF *m, sf_count_t *doff, sf_cou
 	s = vh_open_w (m, j->format, j->ch, j->rate, NULL) ;
 	if (s == NULL) return -1 ;
 	if (j->meta) { sf_set_string (s, SF_STR_TITLE, "determinism") ; sf_set_string (s, SF_STR_SOFTWARE, "c07") ; }
+	switch (j->opt)
+	{	case 1 : sf_command (s, SFC_SET_ADD_PEAK_CHUNK, NULL, SF_FALSE) ; break ;
+		case 2 : if ((j->format & SF_FORMAT_TYPEMASK) == SF_FORMAT_WAVEX) sf_command (s, SFC_WAVEX_SET_AMBISONIC, NULL, SF_AMBISONIC_B_FORMAT) ; break ;
+		case 3 : if ((j->format & SF_FORMAT_TYPEMASK) == SF_FORMAT_RF64) sf_command (s, SFC_RF64_AUTO_DOWNGRADE, NULL, SF_TRUE) ; break ;
+		default : break ; }
 	if (variant == V_AUTO) sf_command (s, SFC_SET_UPDATE_HEADER_AUTO, NULL, SF_TRUE) ;
 	while (done < items)
 	{	long kf, k ; int fw = 0 ; sf_count_t w ;
@@ -123,7 +128,7 @@ int main (int argc, char **argv)
 			if (k == 2 && !vh_sample_granular (format)) vh_nostride_next = 1 ;		/* job 2 of a block codec is a file shorter than one block: always part of the memcheck sample */
 			if (!vh_case ("%s ch=%d job=%d", vh_fname (format), chs [c], k)) continue ;
 			B = vh_block (format, chs [c], 8000) ;
-			j.format = format ; j.ch = chs [c] ; j.rate = 8000 ; j.t = (k + (int) vh_seed0) % T_N ; j.meta = (k >> 1) & 1 ;
+			j.format = format ; j.ch = chs [c] ; j.rate = 8000 ; j.t = (k + (int) vh_seed0) % T_N ; j.meta = (k >> 1) & 1 ; j.opt = vh_rint (6) ; if (j.opt > 3) j.opt = 0 ; vh_statf (1, "writer-option:%d", j.opt) ;
 			j.N = k == 0 ? (B > 1 ? 3 * B + 7 : 3001) : k == 1 ? 4097 / chs [c] + 2 : (k == 2 && B > 2) ? 1 + vh_rint (B - 2) : 1 + vh_rint (B > 1 ? 5 * B : 7000) ;
 			if (j.N * j.ch > 70000) j.N = 70000 / j.ch ;
 			items = j.N * j.ch ; j.data = vh_guard_alloc (items * 8, 0) ;
